@@ -177,7 +177,10 @@ def body(draw, min_len=1, max_len=24, profile=None, max_need=10, allow_split=Tru
         elif kind == "split":
             nm = draw(st.sampled_from(SPLITS))
             a, _ = evm.ARITY[nm]
-            if avail() >= a:
+            if draw(st.integers(0, 7)) == 0:
+                # the one splitting instruction that carries an operand
+                emit("PUSH", draw(st.integers(0, 66))); emit("PUSH", draw(offset())); emit("ASSIGNIMMUTABLE", draw(st.sampled_from(["11", "22", "1167"])))
+            elif avail() >= a:
                 if draw(st.booleans()):
                     # small operands so that the state stays inside the memory domain
                     for _ in range(min(a, 7)):
@@ -428,4 +431,26 @@ def failing_block(draw):
                                  I("CALLER", "PC", "ADD", "SWAP1"), I("PC", "DUP2", "MSTORE")]))
     pre = draw(st.sampled_from([[], [("PUSH", 3), ("PUSH", 4), ("ADD", None)], I("DUP1", "ISZERO")]))
     return pre + core
+
+
+@st.composite
+def operand_split_block(draw):
+    """several splitting instructions of the same kind with different operands / arguments, each preceded by something the
+    optimizer can improve (the splitting instruction is re-inserted when the sub-blocks are joined again)"""
+    n = draw(st.integers(2, 3))
+    out = []
+    kind = draw(st.sampled_from(["ASSIGNIMMUTABLE", "ASSIGNIMMUTABLE", "LOG1", "CALLDATACOPY", "MSTORE"]))
+    ids = draw(st.permutations(["11", "22", "33"]))
+    for i in range(n):
+        out += draw(st.sampled_from([[("PUSH", 1), ("PUSH", 2), ("ADD", None)], [("PUSH", 3), ("PUSH", 0), ("ADD", None)],
+                                     [("CALLER", None), ("DUP1", None), ("SWAP1", None), ("POP", None)], [("PUSH", 5)]]))
+        if kind == "ASSIGNIMMUTABLE":
+            out += [("PUSH", 0x40 + 0x20 * i), ("ASSIGNIMMUTABLE", ids[i] if draw(st.integers(0, 4)) else ids[0])]
+        elif kind == "LOG1":
+            out += [("PUSH", 0x20), ("PUSH", 0x40 * i), ("LOG1", None)]
+        elif kind == "CALLDATACOPY":
+            out += [("PUSH", 0x20), ("PUSH", i), ("CALLDATACOPY", None)]
+        else:
+            out += [("PUSH", 0x40 + 0x20 * i), ("MSTORE", None)]
+    return out + draw(st.sampled_from([[], [("PUSH", 0), ("PUSH", 5), ("ADD", None)], [("POP", None)]]))
 
